@@ -58,6 +58,13 @@ def enrich_case(case, r):
     case = copy.deepcopy(case)
     f, d, l = case["windows"]
     ws = list(range(f, l + 1, d))
+    # the versions of a world move and add genes and TEs: keep every coordinate they can produce within 1 .. 2^31-1
+    headroom = 3 * (ws[-1] + d) + 100000
+    mx = max([g["stop"] for g in case["genes"]] + [t["stop"] for t in case["tes"]])
+    if mx + headroom > MAXC:
+        shift = mx + headroom - MAXC
+        for x in case["genes"] + case["tes"]:
+            x["start"] -= shift; x["stop"] -= shift
     marks = sorted(set([min(ws[0], 40) // 2 + 1] + [w + max(1, d // 2) for w in ws] + [ws[-1] + d + max(1, d // 2), ws[-1] + 3 + max(1, d // 3)]))
     for ch in sorted(set(g["chrom"] for g in case["genes"])):
         gs = sorted((g for g in case["genes"] if g["chrom"] == ch), key=lambda g: g["start"])
